@@ -24,6 +24,7 @@ def run(ctx):
     ctx.rule('C12.R4', 'every loop reading the input exits on EOF/None/Err of that read; read_frame: clean EOF -> Ok(None)', floor=3)
     ctx.rule('C12.R5', 'handle_put: every path to a reply passes a take(len)-bounded consumer; other handlers read nothing', floor=3)
     ctx.rule('C12.R6', 'serve errors surface as Err (non-zero exit)', floor=1)
+    ctx.rule('C12.R7', 'serve: from a decoded request the next frame read is reached only past a proof that the request is not a Put, or past handle_put / a take(len) consumer', floor=1)
     hub = Hub(ctx, F, 'C12.R1')
     r1(ctx, F, hub)
     r2(ctx, F)
@@ -31,6 +32,7 @@ def run(ctx):
     r4(ctx, F)
     r5(ctx, F, hub)
     r6(ctx, F)
+    r7(ctx, F)
 
 
 def r1(ctx, F, hub):
@@ -267,3 +269,62 @@ def r6(ctx, F):
         reach_false |= fl.cfg.reach(t)
     ctx.check(bool(false_e) and not (set(oks) & reach_false), 'C12.R6', 'serve:bad-prologue->Err', 'a wrong prologue cannot reach an Ok return',
               'serve returns Ok (exit 0) for a client that did not send the COPIA1 prologue', term_loc(b, mb))
+
+
+def r7(ctx, F):
+    """In step across requests: a Put frame is followed by `len` content bytes.  On every path from the decoded request
+    back to the next read_frame, either the request was shown not to be a Put (a non-Put edge of a switch on the request's
+    discriminant inside serve) or the content was consumed (handle_put, decided by R5, or an inline take(put.len) consumer)."""
+    from rules.bisync import variant_edges
+    b = F.body(SERVE)
+    fl = flow_of(b)
+    cfg = fl.cfg
+    frames = fl.calls_to('wire::read_frame')
+    if len(frames) != 1:
+        ctx.missing('C12.R7', 'serve: the single read_frame call')
+    fb, ft = frames[0]
+    some_e = fl.outcomes(fb).get('Some', set())
+    if not some_e:
+        ctx.missing('C12.R7', 'serve: Some edge of read_frame')
+    # locals holding the decoded request: discriminant reads whose place derives from the read_frame result
+    req_locals = set()
+    for bi in cfg.reachable():
+        for st in b.blocks[bi]['stmts']:
+            rv = st['rv']
+            if rv['k'] == 'discr' and b.local_ty(rv['p']['l']).replace('&', '').strip() == 'wire::Request':
+                if any(o.kind == 'call' and o.bb == fb for o in fl.origins(rv['p']['l'])):
+                    req_locals.add(rv['p']['l'])
+    cut_e = set()
+    n_put = 0
+    for l in req_locals:
+        ve = variant_edges(fl, l, 'wire::Request')
+        n_put += len(ve.get('Put', ()))
+        put_targets = {(e[0], e[1]) for e in ve.get('Put', ())}
+        for v, es in ve.items():
+            if v != 'Put':
+                # an `otherwise` edge shared with Put proves nothing
+                cut_e |= {(e[0], e[1]) for e in es if (e[0], e[1]) not in put_targets}
+    if not n_put:
+        ctx.missing('C12.R7', 'serve: a switch on the request discriminant with a Put edge')
+    cut_b = {cb for cb, ct in fl.calls_to('serve::handle_put')}
+    for cb, ct in fl.calls(lambda c: c in ('std::io::copy', 'std::io::Read::read_exact', 'std::io::Read::read_to_end')):
+        for o in fl.origins(ct['args'][0]):
+            if o.kind == 'call' and o.key == 'std::io::Read::take':
+                lo = call_arg_origins(fl, o.bb, 1)
+                if lo and all(x.kind == 'call' and x.bb == fb and x.path[-1:] == ('len',) for x in lo):
+                    cut_b.add(cb)
+    if not cut_b:
+        ctx.missing('C12.R7', 'serve: the handle_put call')
+    bad = None
+    for (s_, t_) in {(e[0], e[1]) for e in some_e}:
+        if t_ in cut_b:
+            continue
+        seen = cfg.reach(t_, cut_edges=cut_e, cut_blocks=cut_b)
+        if fb in seen:
+            p_ = cfg.path(t_, fb, cut_edges=cut_e, cut_blocks=cut_b)
+            bad = p_
+    ctx.check(bad is None, 'C12.R7', 'serve:put-content-consumed-before-next-frame',
+              'every decoded-request -> next-read path passes a non-Put discriminant edge, handle_put, or a take(len) consumer',
+              'serve can go on to read the next frame after a request that may be a Put without consuming its `len` content bytes: the content would be parsed as frames%s'
+              % (' (path through lines %s)' % sorted({b.blocks[x]['term'].get('line') for x in bad if b.blocks[x]['term'].get('line')}) if bad else ''),
+              term_loc(b, bad[len(bad) // 2]) if bad else term_loc(b, fb))
